@@ -112,8 +112,22 @@ fn parse_ctx(t: &mut Toks) -> Option<Vec<u64>> {
     match t.str() {
         "-" => None,
         "A" => Some((0..17).map(|_| t.u64()).collect()),
+        // x86 context (register_size 4): eip esp ebp ebx esi edi eax ecx edx eflags — T cases only
+        "X" => Some((0..10).map(|_| t.u64()).collect()),
         x => panic!("ctx {}", x),
     }
+}
+
+const X86_REGS: [&str; 10] = ["eip", "esp", "ebp", "ebx", "esi", "edi", "eax", "ecx", "edx", "eflags"];
+
+fn x86_ctx(vals: &[u64]) -> md::CONTEXT_X86 {
+    use minidump::CpuContext;
+    let mut c: md::CONTEXT_X86 = unsafe { std::mem::zeroed() };
+    c.context_flags = 0x1003f;
+    for (i, r) in X86_REGS.iter().enumerate() {
+        c.set_register(r, vals[i] as u32).unwrap();
+    }
+    c
 }
 
 fn parse_regions(t: &mut Toks) -> (u64, Vec<(u64, u64, u64)>) {
@@ -247,7 +261,7 @@ fn run(line: &str) -> String {
                 _ => MemoryOperation::Undetermined,
             };
             let ctx = ctxv.map(|v| MinidumpContext {
-                raw: MinidumpRawContext::Amd64(amd64_ctx(&v)),
+                raw: if v.len() == 10 { MinidumpRawContext::X86(x86_ctx(&v)) } else { MinidumpRawContext::Amd64(amd64_ctx(&v)) },
                 valid: MinidumpContextValidity::All,
             });
             let info_bytes = meminfo_bytes(&regs);
